@@ -301,4 +301,120 @@ theorem source_MapsAppend_is_modelled :
   "return target"] := by
   rfl
 
+/-! ## round 5: option functions and accessors -/
+
+/-- `IncludeDependencies` — modelled by `Policy.deps` in `policyOf`: an option overwrites `dependencyPolicy`, so of several options the last one decides -/
+theorem source_IncludeDependencies_is_modelled :
+    CV.Gen.c15_IncludeDependencies = [
+  "func (options *withServicesOptions)",
+  "options.dependencyPolicy = includeDependencies"] := by
+  rfl
+
+/-- `IncludeDependents` — `Policy.dependents` -/
+theorem source_IncludeDependents_is_modelled :
+    CV.Gen.c15_IncludeDependents = [
+  "func (options *withServicesOptions)",
+  "options.dependencyPolicy = includeDependents"] := by
+  rfl
+
+/-- `IgnoreDependencies` — `Policy.ignore` -/
+theorem source_IgnoreDependencies_is_modelled :
+    CV.Gen.c15_IgnoreDependencies = [
+  "func (options *withServicesOptions)",
+  "options.dependencyPolicy = ignoreDependencies"] := by
+  rfl
+
+/-- `ServiceNames` — modelled by `serviceNames`: the keys of `Services`, `sort.Strings`ed -/
+theorem source_ServiceNames_is_modelled :
+    CV.Gen.c15_ServiceNames = [
+  "func () []string",
+  "var names []string",
+  "for k := range p.Services",
+  "names = append(names, k)",
+  "sort.Strings(names)",
+  "return names"] := by
+  rfl
+
+/-- `DisabledServiceNames` — modelled by `disabledServiceNames` -/
+theorem source_DisabledServiceNames_is_modelled :
+    CV.Gen.c15_DisabledServiceNames = [
+  "func () []string",
+  "var names []string",
+  "for k := range p.DisabledServices",
+  "names = append(names, k)",
+  "sort.Strings(names)",
+  "return names"] := by
+  rfl
+
+/-- `GetService` — modelled by `getService`: the enabled service, else `ErrDisabled` if the name is a disabled service, else `ErrNotFound` -/
+theorem source_GetService_is_modelled :
+    CV.Gen.c15_GetService = [
+  "func (name string) (ServiceConfig, error)",
+  "service, ok := p.Services[name]",
+  "if !ok",
+  "_, ok := p.DisabledServices[name]",
+  "if ok",
+  "return ServiceConfig{}, fmt.Errorf(\"no such service: %s: %w\", name, errdefs.ErrDisabled)",
+  "return ServiceConfig{}, fmt.Errorf(\"no such service: %s: %w\", name, errdefs.ErrNotFound)",
+  "return service, nil"] := by
+  rfl
+
+/-- `GetServices` — modelled by `getServices` / `getServicesLoop`: no name ⇒ the service map; else `GetService` per name in argument order, the first error is returned -/
+theorem source_GetServices_is_modelled :
+    CV.Gen.c15_GetServices = [
+  "func (names ...string) (Services, error)",
+  "if len(names) == 0",
+  "return p.Services, nil",
+  "services := Services{}",
+  "for _, name := range names",
+  "service, err := p.GetService(name)",
+  "if err != nil",
+  "return nil, err",
+  "services[name] = service",
+  "return services, nil"] := by
+  rfl
+
+/-- `GetDisabledService` — modelled by `getDisabledService` -/
+theorem source_GetDisabledService_is_modelled :
+    CV.Gen.c15_GetDisabledService = [
+  "func (name string) (ServiceConfig, error)",
+  "service, ok := p.DisabledServices[name]",
+  "if !ok",
+  "return ServiceConfig{}, fmt.Errorf(\"no such service: %s\", name)",
+  "return service, nil"] := by
+  rfl
+
+/-- `GetDependentsForService` — modelled by `getDependentsForService`: `MapKeys` (sorted) of `dependentsForService` -/
+theorem source_GetDependentsForService_is_modelled :
+    CV.Gen.c15_GetDependentsForService = [
+  "func (s ServiceConfig) []string",
+  "return utils.MapKeys(p.dependentsForService(s))"] := by
+  rfl
+
+/-- `ServiceConfig.GetDependents` — modelled by `getDependents`: one `service.Name` per enabled service with a `depends_on` entry for `s.Name`, in range order -/
+theorem source_GetDependents_is_modelled :
+    CV.Gen.c15_GetDependents = [
+  "func (p *Project) []string",
+  "var dependent []string",
+  "for _, service := range p.Services",
+  "for name := range service.DependsOn",
+  "if name == s.Name",
+  "dependent = append(dependent, service.Name)",
+  "return dependent"] := by
+  rfl
+
+/-- `Services.GetProfiles` — modelled by `getProfilesPre` (one possible order) / `getProfiles` (its sorted view): the profiles of the services collected in a set, listed by ranging over that set (not sorted: callers get an unordered list) -/
+theorem source_GetProfiles_is_modelled :
+    CV.Gen.c15_GetProfiles = [
+  "func () []string",
+  "set := map[string]struct{}{}",
+  "for _, service := range s",
+  "for _, p := range service.Profiles",
+  "set[p] = struct{}{}",
+  "var profiles []string",
+  "for k := range set",
+  "profiles = append(profiles, k)",
+  "return profiles"] := by
+  rfl
+
 end CV.Sel
